@@ -14,7 +14,7 @@ if '--keep' in args:
 if '--fn' in args:
     extra += ['--verify-function', args[args.index('--fn') + 1]]
 if '--mod' in args:
-    extra += ['--verify-module', args[args.index('--mod') + 1]]
+    extra += ['--verify-only-module', args[args.index('--mod') + 1]]
 if '--expand' in args:
     extra += ['--expand-errors']
 skip = set()
